@@ -1037,8 +1037,8 @@ def retained_programs(fields, family, which):
 
 ALLPAIRS_QUICK = ("bed", "bdg", "fastq", "sizes")
 SMALL_QUICK = ("bed", "fastq", "sam", "bam")
-ALLPAIRS_FULL = ("bed", "fastq", "fasta2", "sizes", "gfa", "bdg", "bam", "csv")
-BIG = ("sam", "vcf0")    # 132 and 56 ordered pairs
+ALLPAIRS_FULL = ("bed", "fastq", "fasta2", "sizes", "gfa", "bdg", "bam")
+BIG = ("sam", "vcf0")    # 132 and 56 ordered pairs: the representatives of the kinds (sam), every pair last (vcf0)
 
 
 def plan_retained(tier):
@@ -1063,8 +1063,8 @@ def plan_retained(tier):
     t += [("full", "rep", f, "whole") for f in ALL_FORMATS]
     t += [("full", "rep", f, cs[f][0]) for f in MAIN + ("bam",)]
     t += [("full", "all", f, "whole") for f in ALLPAIRS_FULL]
-    t += [("core", "all", f, "whole") for f in BIG]
-    return t, [(f, m, 10, 6) for f in ALL_FORMATS for m in ["whole"] + cs[f][:1]], 190
+    t += [("core", "all", "vcf0", "whole")]
+    return t, [(f, m, 10, 6) for f in ALL_FORMATS for m in ["whole"] + cs[f][:1]], 200
 
 
 def sample_retained(rng, wide, maxlen):
